@@ -96,7 +96,9 @@ impl Monitor for Mon {
         if !w.awaiting().is_empty() {
             v.push(Event::Timer);
             for t in explore::time_reps(w, TimeDetail::Coarse) {
-                v.push(Event::AdvanceTo(t));
+                if !w.just_advanced {
+                    v.push(Event::AdvanceTo(t));
+                }
             }
         }
         let menu = reply_menu(&w.cfg);
